@@ -30,7 +30,8 @@ def main():
         build_demo = "g++ -std=c++17 -Isrc demo/demo.cpp libOP2Utility.a -lstdc++fs -o demo/demo"
         rc, out = sh("make -j8 libOP2Utility.a", cwd=wt); assert rc == 0, out[-2000:]
         rc, out = sh(build_demo, cwd=wt); assert rc == 0, out[-2000:]
-        rc0, out0 = sh("cd demo && ./demo", cwd=wt, timeout=600)
+        demo_cmd = "./demo/demo" if os.environ.get("DEMO_FROM_ROOT") else "cd demo && ./demo"
+        rc0, out0 = sh(demo_cmd, cwd=wt, timeout=600)
         ran.append(f"unchanged tree: make libOP2Utility.a; {build_demo}; demo/demo -> exit {rc0}")
         rc, out = sh(f"git apply {os.path.join(src_demo, 'patch.diff')}", cwd=wt); assert rc == 0, "patch does not apply: " + out
         rc, out = sh("make -j8 libOP2Utility.a", cwd=wt); assert rc == 0, out[-2000:]
@@ -40,7 +41,7 @@ def main():
         failed = "FAILED" in out
         ran.append(f"with patch: make check -> {passed} passed, failed={failed}")
         rc, out = sh(build_demo, cwd=wt); assert rc == 0, out[-2000:]
-        rc1, out1 = sh("cd demo && ./demo", cwd=wt, timeout=600)
+        rc1, out1 = sh(demo_cmd, cwd=wt, timeout=600)
         ran.append(f"with patch: demo/demo -> exit {rc1}: {out1.strip()[:300]}")
         ok = rc0 == 0 and rc1 != 0 and passed == 141 and not failed
         print("\n".join(ran))
